@@ -45,11 +45,14 @@ for d in sorted(glob.glob(os.path.join(HERE, 'seeded', '*', ''))):
         else:
             dst = os.path.join(scratch, 'repo')
             shutil.copytree('/repo', dst, ignore=shutil.ignore_patterns('.git', '__pycache__', '*.pyc', '*.egg-info'))
-        demo = os.path.join(d, 'demo.py')
-        shutil.copytree(d, os.path.join(scratch, '_out'))
+        # same layout the demonstration was written for: <checkout>/_out/<k>/demo.py
+        k = name.split('-')[-1]
+        outdir = os.path.join(dst, '_out', k)
+        os.makedirs(os.path.dirname(outdir), exist_ok=True)
+        shutil.copytree(d, outdir)
 
         def run_demo():
-            r = subprocess.run(['/venv/bin/python', os.path.join(scratch, '_out', 'demo.py')], cwd=dst, capture_output=True,
+            r = subprocess.run(['/venv/bin/python', os.path.join('_out', k, 'demo.py')], cwd=dst, capture_output=True,
                                text=True, env=dict(os.environ, PYTHONPATH=dst), timeout=600)
             return r.returncode
         row['demo_clean'] = run_demo()
@@ -74,6 +77,7 @@ for d in sorted(glob.glob(os.path.join(HERE, 'seeded', '*', ''))):
             finally:
                 if in_repo:
                     subprocess.run(['git', '-C', '/repo', 'checkout', '--', '.'])
+                    shutil.rmtree('/repo/_out', ignore_errors=True)
     finally:
         shutil.rmtree(scratch, ignore_errors=True)
     results[name] = row
